@@ -51,7 +51,7 @@ fn gen_population(t: &mut Tape, masters: &[u8], max_delay: u64) -> BTreeMap<u8, 
         if masters.contains(&a) {
             continue;
         }
-        let k = *t.pick(&[PeerKind::StatusOnly, PeerKind::DpSlave, PeerKind::DpSlave, PeerKind::Silent, PeerKind::FdlOnly]);
+        let k = *t.pick(&[PeerKind::StatusOnly, PeerKind::DpSlave, PeerKind::DpSlave, PeerKind::Silent, PeerKind::FdlOnly, PeerKind::OddStatus]);
         m.insert(a, (k, 11 + t.below(max_delay - 10)));
     }
     m
@@ -102,7 +102,7 @@ fn scan_case(t: &mut Tape, obs: &mut Obs, scanner: bool) -> CaseResult {
                 } else {
                     let a = t.below(126) as u8;
                     if !masters.contains(&a) {
-                        let k = *t.pick(&[PeerKind::StatusOnly, PeerKind::DpSlave, PeerKind::Silent, PeerKind::FdlOnly]);
+                        let k = *t.pick(&[PeerKind::StatusOnly, PeerKind::DpSlave, PeerKind::Silent, PeerKind::FdlOnly, PeerKind::OddStatus]);
                         p.insert(a, (k, 11 + t.below(max_delay - 10)));
                         changes += 1;
                     }
@@ -155,7 +155,7 @@ fn scan_case(t: &mut Tape, obs: &mut Obs, scanner: bool) -> CaseResult {
     let p = pop.borrow();
     if !scanner {
         // expected live list: everything that answers status requests, other masters included
-        let mut want: BTreeSet<u8> = p.iter().filter(|(_, (k, _))| matches!(k, PeerKind::StatusOnly | PeerKind::DpSlave | PeerKind::FdlOnly)).map(|(a, _)| *a).collect();
+        let mut want: BTreeSet<u8> = p.iter().filter(|(_, (k, _))| matches!(k, PeerKind::StatusOnly | PeerKind::DpSlave | PeerKind::FdlOnly | PeerKind::OddStatus)).map(|(a, _)| *a).collect();
         for m in &masters {
             if *m != own {
                 want.insert(*m);
@@ -220,7 +220,7 @@ fn scan_case(t: &mut Tape, obs: &mut Obs, scanner: bool) -> CaseResult {
 pub fn property() -> Property {
     Property {
         id: "C18",
-        rule: "cases: one real station (any address; in a fifth of the cases a second real master) with the unmodified LiveList or DpScanner behind a request-counting wrapper, a generated population of passive responders over 0..125 (status-only stations, DP slaves answering Slave_Diag with ident 0x4000+address, silent addresses; corner addresses 0, 124, 125), 1..4 phases with generated appearances / disappearances and lossy phases (replies dropped), then an unchanged, fault-free population for two full sweeps (252 application requests + margin). Oracle: iter_stations() equals the addresses answering status requests (other masters included, own address excluded); the scanner's knowledge reconstructed from its events equals the answering DP peripherals with their idents; Discovered/Found and Lost alternate per address and agree with the final list; only addresses 0..125 are probed. Non-trivial = final population non-empty; distinct by (own address, final population, number of changes, baud).",
+        rule: "cases: one real station (any address; in a fifth of the cases a second real master) with the unmodified LiveList or DpScanner behind a request-counting wrapper, a generated population of passive responders over 0..125 (status-only stations - some answering with a response status other than OK -, DP slaves answering Slave_Diag with ident 0x4000+address, silent addresses; corner addresses 0, 124, 125), 1..4 phases with generated appearances / disappearances and lossy phases (replies dropped), then an unchanged, fault-free population for two full sweeps (252 application requests + margin). Oracle: iter_stations() equals the addresses answering status requests (other masters included, own address excluded); the scanner's knowledge reconstructed from its events equals the answering DP peripherals with their idents; Discovered/Found and Lost alternate per address and agree with the final list; only addresses 0..125 are probed. Non-trivial = final population non-empty; distinct by (own address, final population, number of changes, baud).",
         assumptions: vec![
             "responders that answer a status request with a short confirmation are outside the domain (N3)",
             "events are collected after every poll",
